@@ -13,7 +13,7 @@ import ast
 
 from ..cfg import known_falsy, known_truthy
 from ..model import self_attr, unparse, walk_body_shallow
-from .util import call_name, call_recv, calls_in, need, node_assign_value, node_writes_attr, norm, registrations, where
+from .util import deferred_origins, call_name, call_recv, calls_in, need, node_assign_value, node_writes_attr, norm, registrations, where
 
 TECHNIQUE = "loss/resend typestate on (proto, connector, sent, cancelled) via guard facts and who-may-call/write"
 EXPLANATION = (
@@ -148,9 +148,31 @@ def run(ctx):
     # ---- R5 back-off loop
     r = ctx.rule("R5", "connect failure: stop when closing, else count, policy delay, delayed retry kept in `connector`; "
                        "success resets the count", 9, "B+E")
-    eb = conn.nested.get("ebConnect")
-    cb = conn.nested.get("cbConnect")
-    tc = conn.nested.get("tryConnect")
+    # the connect loop, identified by role (not by name).  An *attempt site* is a statement that stores a
+    # maybeDeferred(...) attempt in `connector`; the function holding it (a closure of _connect, or _connect itself)
+    # registers the success / failure handlers on it.  All sites must agree on the handlers.
+    scope = [conn] + list(conn.nested.values())
+    sites = []
+    for g in scope:
+        cg_ = ctx.cfg(g)
+        for n in cg_.nodes:
+            v = node_assign_value(n, "connector")
+            if v is not None:
+                og = deferred_origins(cg_, n.id, v) or []
+                if len(og) == 1 and isinstance(og[0], ast.Call) and call_name(og[0]) not in ("deferLater", "callLater"):
+                    sites.append((g, n, og[0]))
+    need(sites, "connect closures missing")
+    tc = sites[0][0]
+    starters = {g for g, n, o in sites if g is not conn}
+    hs = set()
+    for g in {g for g, n, o in sites}:
+        rg = registrations(g, prog)
+        hs.add((tuple(sorted({prog.resolve_callable(g, x["cb"]) for x in rg if x["cb"] is not None}, key=lambda f: f.qname if f else "")),
+                tuple(sorted({prog.resolve_callable(g, x["eb"]) for x in rg if x["eb"] is not None}, key=lambda f: f.qname if f else ""))))
+    need(len(hs) == 1, "connect closures missing")
+    (cbs_, ebs_), = hs
+    cb = cbs_[0] if len(cbs_) == 1 else None
+    eb = ebs_[0] if len(ebs_) == 1 else None
     need(eb and cb and tc, "connect closures missing")
     ce = ctx.cfg(eb)
     fe = ctx.facts(eb)
@@ -166,30 +188,41 @@ def run(ctx):
     dl = [n for n in ce.nodes if n.kind == "stmt" and isinstance(n.stmt, ast.Assign) and isinstance(n.stmt.value, ast.Call) and
           norm(n.stmt.value.func) == "self._retryPolicy"]
     dly = [n for n in ce.nodes if any(call_name(c) == "deferLater" for c in n.calls())]
+    kept = []
+    for n in ce.nodes:
+        v = node_assign_value(n, "connector")
+        if v is not None:
+            og = deferred_origins(ce, n.id, v) or []
+            if len(og) == 1 and isinstance(og[0], ast.Call) and call_name(og[0]) == "deferLater":
+                kept.append((n, og[0]))
     ok = bool(inc) and bool(dl) and bool(dly) and norm(dl[0].stmt.value.args[0]) == "self._failures" and \
         ce.dominates([inc[0].id], dl[0].id) and ce.dominates([dl[0].id], dly[0].id) and \
-        node_assign_value(dly[0], "connector") is not None and norm(dly[0].calls()[0].args[1]) == unparse(dl[0].stmt.targets[0])
+        len(kept) == 1 and norm(kept[0][1].args[1]) == unparse(dl[0].stmt.targets[0]) and (
+            dly[0].id == kept[0][0].id or not ce.normal_exits_from(dly[0].id, avoid=[kept[0][0].id]))
     r.check(ok, "%s#count-policy-delay" % eb.qname, "retry delay is not policy(consecutive failures), kept as the pending attempt",
             where(eb, eb.node), "no back-off between failed attempts / close() cannot cancel the wait")
-    ct = ctx.cfg(tc)
-    att = [n for n in ct.nodes if node_assign_value(n, "connector") is not None]
-    cnf = conn.nested.get("connect")
-    wrapped = bool(att) and isinstance(node_assign_value(att[0], "connector"), ast.Call) and call_name(node_assign_value(att[0], "connector")) in (
-        "maybeDeferred", "execute") and cnf is not None and prog.resolve_callable(tc, node_assign_value(att[0], "connector").args[0]) is cnf
+    wrapped = all(call_name(o) in ("maybeDeferred", "execute") and bool(o.args) and prog.resolve_callable(g, o.args[0]) in conn.nested.values()
+                  for g, n, o in sites)
     r.check(wrapped, "%s#attempt-wrapped" % tc.qname, "the connection attempt is not started through maybeDeferred(connect): an exception raised "
             "synchronously by the endpoint factory escapes instead of being counted as a failed attempt", where(tc, tc.node),
             "endpoint factory raises on a retry (e.g. unresolvable host): the retry loop dies, requests are never re-sent")
-    hreg = [n for n in ct.nodes if any(call_name(c) in ("addCallback", "addErrback", "addBoth", "addCallbacks") for c in n.calls())]
-    r.check(bool(att) and bool(hreg) and all(ct.dominates([att[0].id], n.id) for n in hreg), "%s#stored-before-handlers" % tc.qname,
+    before = True
+    for g, n, o in sites:
+        cg_ = ctx.cfg(g)
+        hreg = [x for x in cg_.nodes if any(call_name(c) in ("addCallback", "addErrback", "addBoth", "addCallbacks") for c in x.calls())
+                and x.id in cg_.reach([cg_.containing(o)[0].id], include_src=True)]
+        before = before and bool(hreg) and all(cg_.dominates([n.id], x.id) for x in hreg)
+    r.check(before, "%s#stored-before-handlers" % tc.qname,
             "the attempt is stored in `connector` after its handlers are attached: a synchronous failure lets ebConnect store the back-off "
             "timer first, which the late assignment then overwrites with the dead attempt", where(tc, tc.node),
             "close() during that back-off cancels a fired Deferred: the close Deferred never fires, the timer still reconnects")
-    cbd = conn.nested.get("cbDelayed")
+    cbds = [prog.resolve_callable(eb, g["cb"]) for g in registrations(eb, prog) if g["cb"] is not None]
+    cbd = cbds[0] if len(cbds) == 1 and cbds[0] in conn.nested.values() else None
     for g in [x for x in (cb, eb, cbd) if x is not None]:
         cg = ctx.cfg(g)
         fgx = ctx.facts(g)
         sets = [n.id for n in cg.nodes if node_assign_value(n, "connector") is not None or any(
-            prog.resolve_call(g, c) is tc for c in n.calls())]
+            prog.resolve_call(g, c) in starters for c in n.calls())]
         closing = [n.id for n in cg.nodes if n.kind == "stmt" and isinstance(n.stmt, ast.Return) and known_truthy(fgx[n.id], "self._dDown")]
         r.check(bool(sets) and not cg.normal_exits_from(cg.entry.id, avoid=sets + closing), "%s#no-stale-connector" % g.qname,
                 "a path through %s returns leaving `connector` pointing at the Deferred that has just fired (neither cleared, replaced by a "
@@ -198,8 +231,8 @@ def run(ctx):
                 "only connects when `not self.connector`, so every later request is queued for ever")
     regs = registrations(eb, prog)
     rd = [g for g in regs if g["cb"] is not None and prog.resolve_callable(eb, g["cb"]) is not None]
-    again = any(any(prog.resolve_call(prog.resolve_callable(eb, g["cb"]), c) is tc for c in calls_in(prog.resolve_callable(eb, g["cb"])))
-                for g in rd)
+    again = any(any(prog.resolve_call(prog.resolve_callable(eb, g["cb"]), c) in starters for c in calls_in(prog.resolve_callable(eb, g["cb"])))
+                or any(sg is prog.resolve_callable(eb, g["cb"]) for sg, sn, so in sites) for g in rd)
     r.check(again, "%s#retries" % eb.qname, "the delayed call does not try to connect again", where(eb, eb.node),
             "one failed attempt and the client stays disconnected with requests pending")
     cc = ctx.cfg(cb)
@@ -244,9 +277,10 @@ def run(ctx):
         isinstance(t, ast.Subscript) and self_attr(t.value) == "requests" for t in n.stmt.targets)]
     r.check(bool(insn) and all(known_falsy(fm[n.id], "self._dDown") for n in insn), "%s#refuses-after-close" % mk.qname,
             "makeRequest accepts a request after close()", where(mk, mk.node), "request queued for ever / connection attempt after close")
-    hcf = close.nested.get("connectingFailed")
-    r.check(hcf is not None and any(call_name(c) == "callback" and call_recv(c) == "self._dDown" for c in calls_in(hcf)) and any(
-        g["eb"] is not None and prog.resolve_callable(close, g["eb"]) is hcf and g["root"] == "self.connector" for g in registrations(close, prog)),
+    # the handler close() registers on the pending attempt before cancelling it (whatever it is called)
+    hcfs = [prog.resolve_callable(close, g["eb"]) for g in registrations(close, prog) if g["eb"] is not None and g["root"] == "self.connector"]
+    hcf = hcfs[0] if len(hcfs) == 1 else None
+    r.check(hcf is not None and any(call_name(c) == "callback" and call_recv(c) == "self._dDown" for c in calls_in(hcf)),
         "%s#cancelled-attempt-fires" % close.qname, "cancelling the pending attempt does not fire the close Deferred", where(close, close.node))
 
     # ---- R7 write site
